@@ -306,7 +306,7 @@ func checkC04(c *Ctx, r *Report) {
 	n5 := 0
 	for _, o := range tmp5.Obls {
 		switch o.Rule {
-		case "K2", "K2b", "K3", "O5-parents", "O5-sort", "D6", "G-base", "G-prefix", "G-cutset", "G-rooted":
+		case "K2", "K2b", "K3", "O5-parents", "O5-parents-clean", "O5-sort", "D6", "G-base", "G-prefix", "G-cutset", "G-rooted":
 			o.Rule = "plan-" + o.Rule
 			r.Obls = append(r.Obls, o)
 			n5++
